@@ -3,10 +3,13 @@ set -e
 . $MC/par.sh
 SRC="$REPO/igris/osinter/wait.cpp $REPO/igris/osinter/wait-linux.cpp $REPO/igris/sync/syslock_mutex.cpp $REPO/igris/container/dlist.cpp"
 INC="-I$REPO -I$MC"
+# the ThreadSanitizer build is also the release build (-DNDEBUG): a condition that only an assert() evaluates, or an
+# assert with a side effect, behaves differently there; the AddressSanitizer build keeps the asserts alive
 for san in address thread; do
   d=$BUILD/$san; mkdir -p $d
-  for f in $SRC; do par g++ -std=c++17 -O1 -g -fsanitize=$san -fno-omit-frame-pointer $INC -c $f -o $d/$(basename $f .cpp).o; done
-  par g++ -std=c++17 -O1 -g -fsanitize=$san -fno-omit-frame-pointer $INC -c $VERIF/harness/c20/c20_sync.cpp -o $d/h.o
+  ND=""; [ $san = thread ] && ND="-DNDEBUG"
+  for f in $SRC; do par g++ -std=c++17 -O1 -g $ND -fsanitize=$san -fno-omit-frame-pointer $INC -c $f -o $d/$(basename $f .cpp).o; done
+  par g++ -std=c++17 -O1 -g $ND -fsanitize=$san -fno-omit-frame-pointer $INC -c $VERIF/harness/c20/c20_sync.cpp -o $d/h.o
 done
 par g++ -std=c++17 -O2 -g $INC -c $MC/sched/sched.cpp -o $BUILD/sched.o
 par g++ -std=c++17 -O2 $INC -c $MC/mc.cpp -o $BUILD/mc.o
